@@ -1,6 +1,7 @@
 package sim
 
 import (
+	"crypto/ecdsa"
 	"encoding/binary"
 	"fmt"
 	"net"
@@ -69,6 +70,15 @@ func genC11(r *prng) *plan {
 	p.Cfg["nunverified"] = int64(r.intn(4))
 	n := 3 + r.intn(8)
 	for i := 0; i < n; i++ {
+		if r.chance(15) {
+			// the node learns a newer record of one of its liveness-checked entries: same address, another
+			// port (nobody answers there); until that endpoint has passed a check it must not be relayed
+			p.Ops = append(p.Ops, opSpec{K: "update", N: []int64{int64(r.intn(48)), int64(1 + r.intn(500)), int64(r.u64() >> 1)}})
+			// ... asked for at once by a loopback asker (to whom every address may be relayed), at exactly
+			// that entry's distance
+			p.Ops = append(p.Ops, opSpec{K: "ask", N: []int64{0, 99, int64(r.u64() >> 1)}})
+			continue
+		}
 		if r.chance(60) {
 			// raw FINDNODES from an asker of some address class with some distance list
 			p.Ops = append(p.Ops, opSpec{K: "ask", N: []int64{int64(r.intn(3)), int64(r.intn(9)), int64(r.u64() >> 1)}})
@@ -80,8 +90,13 @@ func genC11(r *prng) *plan {
 	return p
 }
 
+// c11LastMovedDist: log-distance of the entry the last "update" operation moved (distance mode 99).
+var c11LastMovedDist uint16 = 256
+
 func c11Distances(mode int64, rs *prng) []uint16 {
 	switch mode {
+	case 99:
+		return []uint16{c11LastMovedDist}
 	case 0:
 		return nil
 	case 1:
@@ -129,6 +144,8 @@ func runC11(seed uint64) {
 		}
 	}
 	// verified fillers of all three address classes
+	var fillers []c11filler
+	movedTo := map[enode.ID]uint64{} // entries whose newer record (this sequence number) names an endpoint nobody answers on
 	fill := int(p.cfg("fill"))
 	if fill > 0 {
 		want := map[int]int{256: 16, 255: 16, 254: 16}
@@ -147,6 +164,7 @@ func runC11(seed uint64) {
 					n = makeENR(k, ip, 2000+i, 1, 0)
 				}
 				vp.p.AddEnr(n)
+				fillers = append(fillers, c11filler{k, n})
 				i++
 			}
 		}
@@ -241,6 +259,10 @@ func runC11(seed uint64) {
 					}
 					continue
 				}
+				if ms, moved := movedTo[n.ID()]; moved && n.Seq() >= ms {
+					w.violate("C11", "unverified-record-sent", "record #%d (%s, seq %d, port %d) names an endpoint the node only learnt from a third party and that never passed a liveness check (nobody answers there)", i, n.ID().TerminalString(), n.Seq(), n.UDP())
+					continue
+				}
 				e, in := tab[n.ID()]
 				switch {
 				case !in:
@@ -265,6 +287,44 @@ func runC11(seed uint64) {
 			}
 		case "respond":
 			c11Respond(w, seed, opi, op, V, vp, rs)
+		case "update":
+			if len(fillers) == 0 {
+				continue
+			}
+			f := fillers[int(op.n(0))%len(fillers)]
+			seq := f.n.Seq() + 1 + movedTo[f.n.ID()]
+			newRec := makeENR(f.k, f.n.IP(), f.n.UDP()+int(op.n(1)), seq, 0)
+			raw, _ := rlp.EncodeToBytes(newRec.Record())
+			R := w.newPuppet(nodeCfg{name: fmt.Sprintf("M%d", opi), ip: c11Addr(ipLoop, 120+opi).String(), port: 9400 + opi, key: detKey(seed, 300+opi), versions: []uint8{0, 1}, maxUtp: 10})
+			R.handlers[string(portalwire.History)] = func(from *enode.Node, addr *net.UDPAddr, msg []byte) []byte {
+				if len(msg) > 0 && msg[0] == portalwire.FINDNODES {
+					return append([]byte{portalwire.NODES, 1, 5, 0, 0, 0}, sszLists([][]byte{raw})...)
+				}
+				return nil
+			}
+			// records enter the table from lookups: the responder is a table entry, the node looks the
+			// entry's own id up, the responder's answer carries the newer record
+			vp.p.AddEnr(R.self())
+			w.call("v-lookup", 60*time.Second, func() error {
+				_, e := vp.api.RecursiveFindNodes(f.n.ID().String())
+				return e
+			})
+			w.runFor(20 * time.Millisecond)
+			c11LastMovedDist = uint16(enode.LogDist(V.id(), f.n.ID()))
+			got := 0
+			for _, b := range vp.p.VerifTable().Nodes() {
+				for _, bn := range b {
+					if bn.Node.ID() == f.n.ID() && bn.Node.Seq() >= seq {
+						got = 1
+					}
+				}
+			}
+			if got == 1 {
+				movedTo[f.n.ID()] = seq
+				w.probe("entry_moved_to_unchecked_port")
+			}
+			w.op("update#%d: a lookup brings the node a newer record (seq %d) of entry %s: same address, port %d -> %d; table updated=%d", opi, seq, f.n.ID().TerminalString(), f.n.UDP(), newRec.UDP(), got)
+			w.abstract("update acc=%d", got)
 		}
 	}
 	w.res.Nontrivial = true
@@ -466,4 +526,9 @@ func c11Respond(w *world, seed uint64, opi int, op opSpec, V *baseNode, vp *prot
 	}
 	w.op("respond#%d responder %s dists=%v sent %d records %v -> accepted %d err=%v", opi, rip, dists, len(recs), kinds, len(got), err)
 	w.abstract("respond c%d sent=%d acc=%d", rclass, len(recs), len(got))
+}
+
+type c11filler struct {
+	k *ecdsa.PrivateKey
+	n *enode.Node
 }
